@@ -68,6 +68,15 @@ func TestVerifReplay(t *testing.T) {
 	b4.sequence.Store(50); b4.block()
 	if len(bl4.blocked) != 0 { fail("peer flagged while the network was unavailable was blocklisted"); return }
 
+	// a success reported while the network is down still clears the flag
+	b6, bl6 := mk(); defer b6.Close()
+	b6.sequence.Store(1); b6.Flag(a1)
+	bl6.status = p2p.NetworkStatusUnavailable
+	b6.Unflag(a1)
+	bl6.status = p2p.NetworkStatusAvailable
+	b6.sequence.Store(50); b6.block()
+	if len(bl6.blocked) != 0 { fail("a peer that succeeded (Unflag during a network outage) since it was flagged was blocklisted"); return }
+
 	// the clock counts only ticks at which the network answered "available"
 	saved := sequencerResolution
 	sequencerResolution = time.Millisecond
